@@ -4,6 +4,8 @@ from ..fn import World
 from ..index import AnalysisError, dotted
 from ..astutil import text, short, endswith, calls_in, walk_no_nested, names_loaded
 from ..dataflow import DefUse
+from ._h_F import (Res, res_of, call_arg, absent, canon, strip_wrappers, iterations,
+                   loop_body_nodes, every_iteration)
 
 EXPLANATION = (
   "Decides that no cell can be dropped by construction: the column count given to "
@@ -112,106 +114,181 @@ def _defs(fnode, name):
                                                for t in n.targets)]
 
 
+def _one_per(r, e, nid, base, depth=0):
+  """Does collection `e` (at node nid) hold exactly one element per element of a base iterable
+  (base(expr, node id) -> bool), directly or through intermediate lists built one-per-element?
+  Comprehensions without filters and append-loops that append exactly once per completed
+  iteration count. Returns the list of Elements on success (for inspecting what is stored)."""
+  els = r.elements(e, nid)
+  if els is None or len(els) != 1 or depth > 4:
+    return None
+  el = els[0]
+  if len(el.loops) != 1 or el.conds or el.how not in ("comp", "append"):
+    return None
+  if el.how == "append":
+    loop = r.enclosing(el.node.stmt, (ast.For,))
+    if not loop or not every_iteration(r, loop[-1], el.node.id):
+      return None
+  it = el.loops[0][1]
+  at = el.node.id if el.node is not None else nid
+  if el.how == "append":
+    hs = r.nodes_of(r.enclosing(el.node.stmt, (ast.For,))[-1])
+    at = hs[0].id if hs else at
+  if base(it, at):
+    return [el]
+  sub = _one_per(r, strip_wrappers(it), at, base, depth + 1)
+  return None if sub is None else [el] + sub
+
+
 def r2_table_data(run, w):
   R2 = run.rule("C32-R2", "get_table_data pads short rows to the number of converters and feeds "
                 "every row to every converter", floor=4)
   fn = w.fn("parse_data.get_table_data")
+  r = res_of(w, fn)
+  cfg = r.cfg
   ps = fn.fi.params()
   rows, ncols = ps[0], ps[1]
-  loops = [s for s in fn.node.body if isinstance(s, ast.For) and
-           ((isinstance(s.iter, ast.Call) and dotted(s.iter.func) == "enumerate" and
-             text(s.iter.args[0]) == rows) or text(s.iter) == rows)]
-  if len(loops) != 1:
+  # ---- roles: the feed loop `for cell, conv in zip(<row>, <column converters>): conv.convert_and_add(cell)`
+  feeds = []
+  for n in cfg.nodes:
+    if n.kind != "for":
+      continue
+    it = r.expand(n.stmt.iter, n.id, stop=None) if False else n.stmt.iter
+    if not (isinstance(it, ast.Call) and dotted(it.func) == "zip" and len(it.args) == 2 and
+            isinstance(n.stmt.target, ast.Tuple) and len(n.stmt.target.elts) == 2):
+      continue
+    cellv, convv = [text(x) for x in n.stmt.target.elts]
+    if any(isinstance(c.func, ast.Attribute) and c.func.attr == "convert_and_add" and
+           text(c.func.value) == convv and [text(a) for a in c.args] == [cellv]
+           for c in calls_in(n.stmt.body)):
+      feeds.append(n)
+  if len({id(n.stmt) for n in feeds}) != 1:
+    absent(w, fn, "the loop feeding each cell of a row to its column converter")
+    raise AnalysisError("get_table_data: feed loop not found")
+  feed = feeds[0]
+  rowarg, ccarg = feed.stmt.iter.args
+  if not (isinstance(rowarg, ast.Name) and isinstance(ccarg, ast.Name)):
+    raise AnalysisError("get_table_data: feed loop does not zip two locals")
+  rowvar, CC = rowarg.id, ccarg.id
+  outer = r.enclosing(feed.stmt, (ast.For,))
+  def is_rows(it):
+    it = strip_wrappers(it)
+    if isinstance(it, ast.Call) and dotted(it.func) == "enumerate" and it.args:
+      it = it.args[0]
+    return text(it) == rows
+  lp = [l for l in outer if is_rows(l.iter) and rowvar in
+        [x.id for x in ast.walk(l.target) if isinstance(x, ast.Name)]]
+  if len(lp) != 1:
     raise AnalysisError("get_table_data: row loop not found")
-  lp = loops[0]
-  rowvar = text(lp.target.elts[1]) if isinstance(lp.target, ast.Tuple) else text(lp.target)
-  # roles, not spellings: `converters` is the local bound to _guess_basic_types(..., num_columns);
-  # `col_converters` the local bound to one ColumnConverter per element of it
-  cv_names = [t.id for s in fn.node.body for n in walk_no_nested(s) if isinstance(n, ast.Assign)
-              and isinstance(n.value, ast.Call) and endswith(fn.name(n.value) or "", "_guess_basic_types")
-              for t in n.targets if isinstance(t, ast.Name)]
-  if len(cv_names) != 1:
-    raise AnalysisError("get_table_data: the local holding _guess_basic_types(...) not found")
-  CV = cv_names[0]
-  conv_defs = _defs(fn.node, CV)
-  ok = all(isinstance(v, ast.Call) and len(v.args) == 2 and text(v.args[1]) == ncols
-           for v in conv_defs)
+  lp = lp[0]
+  lp_heads = {n.id for n in r.nodes_of(lp)}
+  body = loop_body_nodes(r, lp)
+  # ---- one column converter per converter, one converter per requested column
+  def guess_call(it, at):
+    v = r.expand(it, at)
+    return isinstance(v, ast.Call) and endswith(dotted(v.func), "_guess_basic_types") and \
+        call_arg(v, 1, "num_columns") is not None and \
+        text(call_arg(v, 1, "num_columns")) == ncols
+  chain = _one_per(r, ast.Name(id=CC, ctx=ast.Load()), feed.id, guess_call)
   g = w.fn("parse_data._guess_basic_types")
+  gr = res_of(w, g)
   gp = g.fi.params()
-  ok = ok and any(isinstance(n, ast.ListComp) and isinstance(n.generators[0].iter, ast.Call) and
-                  dotted(n.generators[0].iter.func) == "range" and
-                  text(n.generators[0].iter.args[0]) == gp[1] for n in ast.walk(g.node))
+  def range_n(it, at):
+    v = gr.expand(it, at)
+    return isinstance(v, ast.Call) and dotted(v.func) == "range" and len(v.args) == 1 and \
+        text(v.args[0]) == gp[1]
+  g_ok = bool(gr.returns()) and not gr.falls_off_end()
+  for (n, v) in gr.returns(expand=False):
+    g_ok = g_ok and _one_per(gr, v, n.id, range_n) is not None
   run.ob(R2, fn.qualname, "converters = _guess_basic_types(..., %s)" % ncols,
-         "one converter per requested column", ok, fi=fn.fi)
-  cc_names = [t.id for s in fn.node.body for n in walk_no_nested(s) if isinstance(n, ast.Assign)
-              and isinstance(n.value, ast.ListComp) and len(n.value.generators) == 1 and
-              not n.value.generators[0].ifs and text(n.value.generators[0].iter) == CV and
-              isinstance(n.value.elt, ast.Call) and
-              endswith(fn.name(n.value.elt) or "", "ColumnConverter")
-              for t in n.targets if isinstance(t, ast.Name)]
-  ok = len(cc_names) == 1 and len(_defs(fn.node, cc_names[0])) == 1
+         "one converter per requested column", chain is not None and g_ok, fi=fn.fi)
+  ok = chain is not None
+  if ok:
+    e = chain[0].elt
+    tg = chain[0].loops[0][0]
+    ok = isinstance(e, ast.Call) and endswith(fn.name(e) or "", "ColumnConverter") and \
+        [text(a) for a in e.args] == [text(tg)] and len(r.defs.get(CC, ())) == 1
   run.ob(R2, fn.qualname, "col_converters = [ColumnConverter(c) for c in converters]",
          "one column converter per converter", ok, fi=fn.fi)
-  CC = cc_names[0] if cc_names else "col_converters"
-  # padding: row.extend([""] * (len(converters) - len(row))) before the zip
-  cfg = fn.cfg
+  # the name of the converter list itself (for the padding amount)
+  CV = None
+  if chain is not None and len(chain) >= 1:
+    it = strip_wrappers(chain[0].loops[0][1])
+    if isinstance(it, ast.Name):
+      CV = it.id
+  run.ob(R2, fn.qualname, "for cell, conv in zip(row, col_converters): conv.convert_and_add(cell)",
+         "every cell of the (padded) row reaches its column's converter", True, fi=fn.fi)
+  # ---- padding: on every path from the start of a row's iteration to the feed loop the row is
+  # extended by [""] * (len(converters) - len(row)), unless that amount is known not positive
+  stop = tuple(x for x in (CV, CC, rowvar) if x)
+  amounts = {"len(%s) - len(%s)" % (c, rowvar) for c in (CV, CC) if c}
   pads = set()
   for n in cfg.nodes:
+    if n.id not in body:
+      continue
     for c in calls_in(n.exprs):
-      if fn.name(c) == rowvar + ".extend":
-        pads.add(n.id)
-  feeds = [(n, s) for n in cfg.nodes if n.kind == "for" and isinstance(n.stmt.iter, ast.Call) and
-           dotted(n.stmt.iter.func) == "zip" and
-           [text(a) for a in n.stmt.iter.args] == [rowvar, CC]
-           for s in [n.stmt]]
-  ok = len(feeds) == 1 and any(fn.name(c) and fn.name(c).endswith(".convert_and_add")
-                               for c in calls_in(feeds[0][1].body))
-  run.ob(R2, fn.qualname, "for cell, conv in zip(row, col_converters): conv.convert_and_add(cell)",
-         "every cell of the (padded) row reaches its column's converter", ok, fi=fn.fi)
-  # the pad amount is len(converters) - len(row), applied when positive, before feeding
-  pad_ok = False
-  du = DefUse(fn)
-  for s in ast.walk(lp):
-    if isinstance(s, ast.If) and any(fn.name(c) == rowvar + ".extend" for c in calls_in(s.body)):
-      t = s.test
-      mv = None
-      if isinstance(t, ast.Compare) and isinstance(t.ops[0], ast.Gt) and \
-          isinstance(t.comparators[0], ast.Constant) and t.comparators[0].value == 0:
-        mv = text(t.left)
-      if mv is not None:
-        # the tested amount, with named intermediate values inlined, is len(converters) - len(row)
-        amount = text(du.inline(t.left, stop=(CV, CC, rowvar)))
-        if amount.replace(" ", "") in ("len(%s)-len(%s)" % (CV, rowvar),
-                                       "len(%s)-len(%s)" % (CC, rowvar)):
-          ext = [c for c in calls_in(s.body) if fn.name(c) == rowvar + ".extend"][0]
-          a = ext.args[0]
-          stop = (CV, CC, rowvar)
-          pad_ok = isinstance(a, ast.BinOp) and isinstance(a.op, ast.Mult) and \
-              amount in (text(du.inline(a.left, stop=stop)), text(du.inline(a.right, stop=stop)))
-  feed_ids = {n.id for (n, s) in feeds}
-  pad_tests = {n.id for n in cfg.nodes if n.kind == "if" and
-               any(fn.name(c) == rowvar + ".extend" for c in calls_in(n.stmt.body))}
+      if fn.name(c) == rowvar + ".extend" and len(c.args) == 1:
+        a = r.expand(c.args[0], n.id, stop=stop)
+        if isinstance(a, ast.BinOp) and isinstance(a.op, ast.Mult):
+          for (lst, k) in ((a.left, a.right), (a.right, a.left)):
+            if isinstance(lst, ast.List) and len(lst.elts) == 1 and \
+                isinstance(lst.elts[0], ast.Constant) and lst.elts[0].value == "" and \
+                text(k) in amounts:
+              pads.add(n.id)
+  def amt(e, node):
+    return r.norm(e, node.id, stop=stop) in amounts
+  def lens(a, b, node):
+    return r.norm(a, node.id, stop=stop) == "len(%s)" % rowvar and \
+        r.norm(b, node.id, stop=stop) in {"len(%s)" % c for c in (CV, CC) if c}
+  def nothing_missing(want):
+    """atom predicate for tests whose outcome `want` says the row is not shorter than the table"""
+    def pred(x, node):
+      if not (isinstance(x, ast.Compare) and len(x.ops) == 1):
+        return False
+      l, op, rr = x.left, x.ops[0], x.comparators[0]
+      zero = isinstance(rr, ast.Constant) and rr.value == 0
+      if want is False:
+        return (isinstance(op, ast.Gt) and zero and amt(l, node)) or \
+            (isinstance(op, ast.Lt) and lens(l, rr, node)) or \
+            (isinstance(op, ast.Gt) and lens(rr, l, node))
+      return (isinstance(op, ast.LtE) and zero and amt(l, node)) or \
+          (isinstance(op, ast.GtE) and lens(l, rr, node)) or \
+          (isinstance(op, ast.LtE) and lens(rr, l, node))
+    return pred
+  first = {s for h in lp_heads for s in cfg.succ[h] if s in body}
+  pad_ok = bool(pads) and (
+    r.guarded(feed.id, nothing_missing(False), False, starts=first, removed=pads) or
+    r.guarded(feed.id, nothing_missing(True), True, starts=first, removed=pads))
+  # and nothing shortens or re-pads the row between the padding and the feed
   run.ob(R2, fn.qualname, "if missing > 0: row.extend([''] * missing)",
          "rows shorter than the table are padded before they are fed, so zip never truncates the "
-         "converters", pad_ok and bool(pad_tests) and
-         all(cfg.dominated_by(f, pad_tests) for f in feed_ids) and
-         not (cfg.reach_after(feed_ids) & pads - cfg.reach_after(pad_tests)), fi=fn.fi)
-  # early exits from the row loop only for an explicit NUM_ROWS limit
+         "converters", pad_ok, fi=fn.fi)
+  # ---- early exits from the row loop only for an explicit NUM_ROWS limit
+  def limit(a, node):
+    return any(isinstance(x, ast.Name) and x.id == ps[2]
+               for x in ast.walk(r.expand(a, node.id)))
   bad = []
-  def scan(stmts, conds):
-    for s in stmts:
-      if isinstance(s, (ast.Break, ast.Continue, ast.Return)):
-        if not any(ps[2] in names_loaded(c) for c in conds):
-          bad.append(s)
-      elif isinstance(s, ast.If):
-        scan(s.body, conds + [s.test])
-        scan(s.orelse, conds + [s.test])
-      elif isinstance(s, (ast.For, ast.While, ast.With, ast.Try)):
-        for b in (getattr(s, "body", []), getattr(s, "orelse", []), getattr(s, "finalbody", [])):
-          scan(b, conds)
-  scan(lp.body, [])
+  for n in cfg.nodes:
+    if n.id in body and n.kind in ("break", "continue", "return"):
+      # a continue of an inner loop is not an exit of the row loop
+      inner = [l for l in r.enclosing(n.stmt, (ast.For, ast.While))]
+      if n.kind in ("break", "continue") and inner and inner[-1] is not lp:
+        continue
+      if not (r.guarded(n.id, limit, True) or r.guarded(n.id, limit, False)):
+        bad.append(n)
   run.ob(R2, fn.qualname, "row loop leaves early only under the %s option" % ps[2],
          "no data row is skipped unless the caller limited the row count", not bad, fi=fn.fi)
+  # ---- what is returned: one column per column converter
+  def is_cc(it, at):
+    return text(strip_wrappers(it)) == CC
+  ok = bool(r.returns()) and not r.falls_off_end()
+  for (n, v) in r.returns(expand=False):
+    ch = _one_per(r, v, n.id, is_cc)
+    ok = ok and ch is not None and isinstance(ch[0].elt, ast.Call) and \
+        isinstance(ch[0].elt.func, ast.Attribute) and ch[0].elt.func.attr == "get_grist_column" \
+        and text(ch[0].elt.func.value) == text(ch[0].loops[0][0])
+  run.ob(R2, fn.qualname, "return [conv.get_grist_column() for conv in col_converters]",
+         "one column is returned per column converter", ok, fi=fn.fi)
 
 
 def r3_converter(run, w):
@@ -220,51 +297,87 @@ def r3_converter(run, w):
   fn = w.fn("parse_data.ColumnConverter.convert_and_add")
   cfg = fn.xcfg
   apps = fn.nodes_calling(lambda c, nm, f: nm == "self._all_col_values.append", cfg)
-  ok = bool(apps) and cfg.dominated_by(cfg.exit.id, apps) and \
-      cfg.raise_exit.id not in cfg.reach({cfg.entry.id}, removed=apps) or False
   # at most once per path
   once = all(not (cfg.reach_after({a}) & apps) for a in apps)
-  # on the success path the value slot is later filled: index recorded before the placeholder
   run.ob(R3, fn.qualname, "self._all_col_values.append(...) exactly once on every path",
          "a converted value, or the text of a value that failed to convert, is stored for every "
-         "cell", bool(apps) and cfg.dominated_by(cfg.exit.id, apps) and once, fi=fn.fi)
+         "cell", bool(apps) and cfg.dominated_by(cfg.exit.id, apps) and once and
+         cfg.raise_exit.id not in cfg.reach({cfg.entry.id}, removed=apps), fi=fn.fi)
   handlers = [n for n in cfg.nodes if n.kind == "handler"]
   ok = any(h.stmt.type is not None and text(h.stmt.type) in ("Exception", "BaseException") or
            h.stmt.type is None for h in handlers)
   run.ob(R3, fn.qualname, "except Exception: store str(value)", "a conversion failure of any kind "
          "keeps the cell as text", ok, fi=fn.fi)
   g = w.fn("parse_data.ColumnConverter.get_grist_column")
-  rets = [s for s in ast.walk(g.node) if isinstance(s, ast.Return)]
-  ok = len(rets) == 1 and isinstance(rets[0].value, ast.Dict) and \
-      any(text(v) == "self._all_col_values" for v in rets[0].value.values)
-  ok = ok and any(isinstance(s, ast.For) and isinstance(s.iter, ast.Call) and
-                  dotted(s.iter.func) == "zip" and
-                  text(s.iter.args[0]) == "self._converted_indices" for s in ast.walk(g.node))
+  gr = res_of(w, g)
+  rets = gr.returns()
+  ok = bool(rets) and not gr.falls_off_end() and all(
+    isinstance(v, ast.Dict) and any(text(x) == "self._all_col_values" for x in v.values)
+    for (n, v) in rets)
+  fills = False
+  for (it, tg, bodyx, owner) in iterations(g.node):
+    at = gr.node_of_expr(it)
+    t = gr.expand(it, at[0].id) if at else it
+    if isinstance(t, ast.Call) and dotted(t.func) == "zip" and t.args and \
+        text(t.args[0]) == "self._converted_indices":
+      fills = True
   run.ob(R3, g.qualname, "data = self._all_col_values (converted slots filled by index)",
-         "the column returned has one entry per cell received", ok, fi=g.fi)
+         "the column returned has one entry per cell received", ok and fills, fi=g.fi)
 
 
 def r4_filter(run, w):
   R4 = run.rule("C32-R4", "a column is dropped only when it has no header and no non-empty cell",
                 floor=1)
   fn = w.fn("imports.import_csv._parse_open_file")
-  loops = [s for s in ast.walk(fn.node) if isinstance(s, ast.For) and
-           isinstance(s.iter, ast.Call) and dotted(s.iter.func) == "zip" and
-           isinstance(s.target, ast.Tuple)]
-  ok = False
-  for lp in loops:
-    cv, hv = [text(e) for e in lp.target.elts]
-    skips = [s for s in lp.body if isinstance(s, ast.If) and
-             any(isinstance(b, ast.Continue) for b in s.body)]
-    others = [s for s in ast.walk(lp) if isinstance(s, (ast.Break, ast.Return))]
-    if len(skips) == 1 and not others:
-      t = skips[0].test
-      if isinstance(t, ast.BoolOp) and isinstance(t.op, ast.And) and len(t.values) == 2:
-        a, b = t.values
-        ok = text(a) == "not " + hv and isinstance(b, ast.Call) and dotted(b.func) == "all" and \
-            isinstance(b.args[0], ast.GeneratorExp) and \
-            text(b.args[0].elt).replace("'", '"') in ('val == ""', 'not val') and \
-            cv in text(b.args[0].generators[0].iter)
+  r = res_of(w, fn)
+  cfg = r.cfg
+  # the loop pairing the converted columns with their headers
+  calls = [(n, c) for (n, c, nm) in fn.calls() if endswith(nm, "get_table_data")]
+  loops = []
+  for n in cfg.nodes:
+    if n.kind == "for" and isinstance(n.stmt.target, ast.Tuple) and \
+        len(n.stmt.target.elts) == 2:
+      it = r.expand(n.stmt.iter, n.id)
+      if isinstance(it, ast.Call) and dotted(it.func) == "zip" and len(it.args) == 2 and \
+          isinstance(it.args[0], ast.Call) and endswith(dotted(it.args[0].func), "get_table_data"):
+        loops.append(n)
+  if len({id(n.stmt) for n in loops}) != 1:
+    absent(w, fn, "the loop over zip(<converted columns>, <headers>)")
+    raise AnalysisError("_parse_open_file: column filter loop not found")
+  head = loops[0]
+  lp = head.stmt
+  cv, hv = [text(e) for e in lp.target.elts]
+  body = loop_body_nodes(r, lp)
+  heads = {n.id for n in r.nodes_of(lp)}
+  keeps = {n.id for n in cfg.nodes if n.id in body and
+           any(isinstance(c.func, ast.Attribute) and c.func.attr in ("append", "extend")
+               for c in calls_in(n.exprs))}
+  first = {s for h in heads for s in cfg.succ[h] if s in body}
+  def no_header(a, node):
+    return text(a) == hv
+  def all_empty(a, node):
+    if not (isinstance(a, ast.Call) and dotted(a.func) == "all" and len(a.args) == 1 and
+            isinstance(a.args[0], (ast.GeneratorExp, ast.ListComp))):
+      return False
+    g = a.args[0]
+    if len(g.generators) != 1 or g.generators[0].ifs:
+      return False
+    t = text(g.generators[0].target)
+    e, pol = canon(g.elt)
+    cell_empty = (not pol and text(e) == t) or \
+        (pol and isinstance(e, ast.Compare) and isinstance(e.ops[0], ast.Eq) and
+         {text(e.left), text(e.comparators[0])} in ({t, "''"}, {t, "u''"}))
+    itx = r.expand(g.generators[0].iter, node.id)
+    return cell_empty and any(isinstance(x, ast.Name) and x.id == cv for x in ast.walk(itx))
+  # an iteration that ends without keeping the column must have seen: no header, all cells empty
+  ok = bool(keeps) and all(
+    r.guarded(h, no_header, False, starts=first, removed=keeps) and
+    r.guarded(h, all_empty, True, starts=first, removed=keeps) for h in heads)
+  # and the loop is never left early
+  for b in body:
+    for s_ in cfg.succ[b]:
+      if s_ not in body and s_ not in heads and s_ != cfg.raise_exit.id:
+        ok = False
   run.ob(R4, fn.qualname, "if not header and all(val == '' for val in col['data']): continue",
          "only header-less, entirely empty columns are removed", ok, fi=fn.fi)
 
